@@ -48,7 +48,11 @@ pub fn step_join_all(c: &JCfg) {
     let t = nd::below(2) as usize;
     let w = gh::task_waker(t);
     let mut cx = Context::from_waker(&w);
+    let a0 = gh::allocs();
+    gh::alloc_track(true);
     let r = Pin::new(&mut ja).poll(&mut cx);
+    gh::alloc_track(false);
+    vassert!(gh::allocs() == a0, "C18:join_all allocated during poll (incl. handing out the result)");
     match r {
         Poll::Ready(v) => {
             // count before looking: every input resolved, none handed out before
@@ -125,7 +129,11 @@ pub fn step_try_join_all(c: &JCfg) {
     let t = nd::below(2) as usize;
     let w = gh::task_waker(t);
     let mut cx = Context::from_waker(&w);
+    let a0 = gh::allocs();
+    gh::alloc_track(true);
     let r = Pin::new(&mut tj).poll(&mut cx);
+    gh::alloc_track(false);
+    vassert!(gh::allocs() == a0, "C18:try_join_all allocated during poll (incl. handing out the result)");
     match r {
         Poll::Ready(Ok(v)) => {
             let ok = all_ok(c, &p);
